@@ -84,6 +84,8 @@ def tree_hash(extra=()):
             pass
     for x in extra:
         h.update(str(x).encode())
+    # a run that skipped the spec-level model checking must never satisfy a run that wants it
+    h.update(("skipmc=%s" % bool(os.environ.get("VERIF_SKIP_MC"))).encode())
     return h.hexdigest()[:24]
 
 
